@@ -22,10 +22,11 @@ const (
 	PolStarve
 	PolLowest
 	PolNewest
+	PolAfterUnlock // a task that has just released a lock is held back for a while: whoever waits for the lock gets through the critical section first
 	NPolicies
 )
 
-var PolicyNames = []string{"fifo", "random", "sticky", "pct", "starve-one", "lowest-id", "newest-first"}
+var PolicyNames = []string{"fifo", "random", "sticky", "pct", "starve-one", "lowest-id", "newest-first", "hold-after-unlock"}
 
 type Task struct {
 	id       int
@@ -36,6 +37,7 @@ type Task struct {
 	state    string // "" running/parked, or what it is blocked on
 	pc       uintptr
 	sleepTil int64
+	holdTil  int // PolAfterUnlock: not chosen before this step while others can run
 }
 
 type Config struct {
@@ -653,8 +655,40 @@ func (s *Sim) choose(ids []int) int {
 		return ids[0]
 	case PolNewest:
 		return ids[len(ids)-1]
+	case PolAfterUnlock:
+		cand := make([]int, 0, len(ids))
+		for _, id := range ids {
+			if s.parked[id].holdTil <= s.steps {
+				cand = append(cand, id)
+			}
+		}
+		if len(cand) == 0 {
+			cand = ids
+		}
+		return cand[tape.Choose(len(cand))]
 	default:
 		return fifo()
+	}
+}
+
+// AfterUnlock is called by the lock replacements once a lock has been released.  Under the
+// hold-after-unlock policy the releasing task is, one time in two, parked and held back for
+// 2-25 steps: code that goes on using shared state after its critical section meets the
+// next owner of the lock.
+func AfterUnlock() {
+	s := current()
+	if s == nil || s.policy != PolAfterUnlock {
+		return
+	}
+	_, t := me()
+	if t == nil {
+		return
+	}
+	if s.tape.Choose(2) == 1 {
+		s.mu.Lock()
+		t.holdTil = s.steps + 2 + s.tape.Choose(24)
+		s.mu.Unlock()
+		s.park(t)
 	}
 }
 
